@@ -427,6 +427,23 @@ func FieldOptions(t *rapid.T, f *ir.File, c *ir.Config, o KOpts) {
 				}
 			}
 		}
+		// decoy suffix entries keyed by the bare name of a package-qualified custom type that has no entry of its own:
+		// a suffix is looked up by the full type name, so these must stay without effect
+		if rapid.Bool().Draw(t, "decoysuffix") {
+			used := map[string]bool{}
+			for _, ct := range c.CustomTypes {
+				used[ct] = true
+			}
+			for _, ct := range ir.SortedKeys(used) {
+				if i := strings.LastIndex(ct, "."); i >= 0 {
+					if _, has := c.Suffixes[ct]; !has {
+						if _, taken := c.Suffixes[ct[i+1:]]; !taken && !used[ct[i+1:]] {
+							c.Suffixes[ct[i+1:]] = "Decoy" + ct[i+1:]
+						}
+					}
+				}
+			}
+		}
 		// suffixes for proto-level custom types
 		for _, n := range ir.SortedKeys(f.CustomTypes) {
 			if rapid.IntRange(0, 2).Draw(t, "protosuffix") == 0 {
